@@ -62,6 +62,55 @@ def _zeros(shape, like_obj):
         np.array([0.0] * int(np.prod(shape)), dtype=object).reshape(shape)
 
 
+class _DataView(np.ndarray):
+    """`.data` of a ShimCSR: an array whose in-place modifications are written back to the matrix (as with SciPy, where
+    `.data` IS the storage).  Arrays derived from it (slices, copies, results of arithmetic) are plain values."""
+
+    @classmethod
+    def make(cls, arr, parent, rows, cols):
+        obj = np.asarray(arr).view(cls)
+        obj._p, obj._rc = parent, (list(rows), list(cols))
+        return obj
+
+    def __array_finalize__(self, obj):
+        self._p, self._rc = None, None
+
+    def _sync(self):
+        if self._p is None:
+            return
+        A = self._p.A
+        flat = np.asarray(self)
+        if A.dtype != object and flat.dtype == object:
+            self._p.A = A = A.astype(object)
+        for k, (i, j) in enumerate(zip(*self._rc)):
+            A[i, j] = flat[k]
+
+    def __setitem__(self, k, v):
+        np.ndarray.__setitem__(self, k, v)
+        self._sync()
+
+    def _inplace(self, op, o):
+        r = op(np.asarray(self), np.asarray(o) if isinstance(o, np.ndarray) else o)
+        if self.dtype != object and np.asarray(r).dtype == object:
+            from ..sym import Unsupported
+            raise Unsupported("in-place update of float sparse data with symbolic values")
+        np.ndarray.__setitem__(self, slice(None), r)
+        self._sync()
+        return self
+
+    def __iadd__(self, o):
+        return self._inplace(lambda a, b: a + b, o)
+
+    def __isub__(self, o):
+        return self._inplace(lambda a, b: a - b, o)
+
+    def __imul__(self, o):
+        return self._inplace(lambda a, b: a * b, o)
+
+    def __itruediv__(self, o):
+        return self._inplace(lambda a, b: a / b, o)
+
+
 class ShimCSR:
     __array_priority__ = 50.0       # below rsome's Affine (100) so Affine.__rmatmul__ wins
 
@@ -182,8 +231,11 @@ class ShimCSR:
             out = np.empty(len(vals), dtype=object)
             for k, v in enumerate(vals):
                 out[k] = v
-            return _norm_dtype(out) if len(vals) else np.array([], dtype=float)
-        return np.array(vals, dtype=self.A.dtype)
+            out = _norm_dtype(out) if len(vals) else np.array([], dtype=float)
+        else:
+            out = np.array(vals, dtype=self.A.dtype)
+        # SciPy hands out the matrix's own storage: writes through `.data` (item assignment, +=, *= ...) change the matrix
+        return _DataView.make(out, self, rows, cols)
 
     @property
     def indices(self):
